@@ -15,17 +15,50 @@ Side-condition predicates defined in Proofs/C14.lean:
 * `Ty.flatD t` — *deep*: every union occurring anywhere in `t` has no `isU` member;
 * `Ty.tidy t` — `t` contains no union and no unhashable literal;
 * `Ty.tidyU t` — `t` is tidy, or a union all of whose members are tidy;
-* `Ty.isUnion t` — `t` is a `MultiValuedValue`.
+* `Ty.isUnion t` — `t` is a `MultiValuedValue`;
+* `Ty.keq a b := Ty.hashEq a b && Ty.beq a b` — "the same dict key": the relation under which
+  `unite_values` de-duplicates and `MultiValuedValue.__eq__` compares member sets;
+* `Ty.hasZeroLit t` — `t` contains a literal with Python hash 0 (`0`, `False`, `''`, `b''`): such a
+  `KnownValue(v)` hashes like `TypedValue(type(v))` (the modelled systematic collision).
 -/
 namespace Pya
 
 /-! ## 1–3. equality and hashing -/
 
-/-- Hash-equal values are `==`: the dict lookup inside `unite_values` never merges two values that
-are not equal. Full strength. -/
-theorem hashEq_imp_beq (a b : Ty) (h : Ty.hashEq a b = true) : Ty.beq a b = true :=
-  Ty.hashEq_imp_beq' a b h
+/-- **Full statement** (false of the pinned pyanalyze: `zeroHash_witness`): hash-equal values are `==`. -/
+def HashImpEq : Prop := ∀ a b : Ty, Ty.hashEq a b = true → Ty.beq a b = true
 
+/-- The dict lookup inside `unite_values` (same hash **and** `==`) never merges two values that are
+not equal. Full strength (by construction of the lookup). -/
+theorem keq_imp_beq (a b : Ty) (h : Ty.keq a b = true) : Ty.beq a b = true :=
+  Ty.keq_imp_beq' a b h
+
+/-- Hash-equal values are `==`, outside the systematic zero-hash collision: if neither value contains
+a literal with Python hash 0. -/
+theorem hashEq_imp_beq_partial (a b : Ty) (ha : a.hasZeroLit = false) (hb : b.hasZeroLit = false)
+    (h : Ty.hashEq a b = true) : Ty.beq a b = true :=
+  Ty.hashEq_imp_beq_of a b ha hb h
+
+/-- the zero-hash collision: `hash(KnownValue(0)) == hash(TypedValue(int))` (both are the hash of a
+pair `(int, x)` with `hash(x) = 0`), and it propagates: `Literal[''] | str` and `str | Literal['']`
+hash equal, are `==`, and are therefore merged by `unite_values` although they differ in order. -/
+theorem zeroHash_witness :
+    Ty.hashEq (.known (.int 0)) (.typed C.int) = true ∧
+    Ty.beq (.known (.int 0)) (.typed C.int) = false ∧
+    Ty.keq (.union [.known (.str ""), .typed C.str]) (.union [.typed C.str, .known (.str "")]) = true ∧
+    unite [.generic 17 [.union [.known (.str ""), .typed C.str]],
+           .generic 17 [.union [.typed C.str, .known (.str "")]], .generic 17 [.typed C.str]] =
+      .union [.generic 17 [.union [.known (.str ""), .typed C.str]], .generic 17 [.typed C.str]] := by
+  refine ⟨by decide, by simp [Ty.beq], ?_, ?_⟩
+  · simp [Ty.keq, Ty.hashEq, Ty.hashEqList, Obj.zeroHashCls, Obj.hashable, Ty.beq, Ty.beqList,
+      Ty.subsetH, Ty.memH, Obj.same, Obj.tag, Obj.pyEq, C.str]
+  · simp [unite, flatten1, dedup, dictMem, Ty.hashEq, Ty.hashEqList, Obj.zeroHashCls, Obj.hashable,
+      Ty.beq, Ty.beqList, Ty.subsetH, Ty.memH, Obj.same, Obj.tag, Obj.pyEq, C.str]
+
+theorem hashImpEq_false : ¬ HashImpEq := fun h => by
+  have := h _ _ zeroHash_witness.1
+  rw [zeroHash_witness.2.1] at this
+  cases this
 /-- `Value.__eq__` is reflexive. -/
 theorem beq_refl (a : Ty) : Ty.beq a a = true := Ty.beq_refl a
 
@@ -63,13 +96,18 @@ theorem beqTrans_false : ¬ BeqTrans := fun h => by
   rw [beq_trans_witness.2.2] at this
   cases this
 /-- Equality of two unions (`MultiValuedValue.__eq__`): the member tuples are member-wise `==`, or
-each member list is included in the other under hash lookup (`set(vals)` comparison). -/
+each member list is included in the other under hash-and-`==` lookup (`set(vals)` comparison). -/
 theorem beq_union_iff (as bs : List Ty) :
     Ty.beq (.union as) (.union bs) = true ↔
       Ty.beqList as bs = true ∨
-        ((∀ a ∈ as, ∃ b ∈ bs, Ty.hashEq b a = true) ∧ (∀ b ∈ bs, ∃ a ∈ as, Ty.hashEq a b = true)) :=
+        ((∀ a ∈ as, ∃ b ∈ bs, Ty.keq b a = true) ∧ (∀ b ∈ bs, ∃ a ∈ as, Ty.keq a b = true)) :=
   Ty.beq_union_iff
 
+/-- "same dict key" is a partial equivalence: symmetric and transitive (reflexive exactly on values
+without unhashable literal). -/
+theorem keq_symm_trans (a b c : Ty) :
+    Ty.keq a b = Ty.keq b a ∧ (Ty.keq a b = true → Ty.keq b c = true → Ty.keq a c = true) :=
+  ⟨Ty.keq_comm a b, Ty.keq_trans a b c⟩
 /-- `==` unions include each other up to `==` (only this direction). -/
 theorem beq_union_incl (as bs : List Ty) (h : Ty.beq (.union as) (.union bs) = true) :
     (∀ a ∈ as, ∃ b ∈ bs, Ty.beq a b = true) ∧ (∀ b ∈ bs, ∃ a ∈ as, Ty.beq b a = true) :=
@@ -385,6 +423,9 @@ theorem substUniteComm_false : ¬ SubstUniteComm := fun h => by
 def c14exA : Ty := .generic C.dict [.typed C.str, .known (.tuple [.int 1])]
 def c14exB : Ty := .generic C.dict [.typed C.str, .known (.tuple [.bool true])]
 example : c14exA.hasUnion = false := by decide
+example : c14exA.hasZeroLit = false ∧ c14exB.hasZeroLit = false := by decide
+example : Ty.beq c14exA c14exB = true :=
+  hashEq_imp_beq_partial c14exA c14exB (by decide) (by decide) (by decide)
 example : c14exA.hasUnhashable = false := by decide
 example : c14exB.hasUnhashable = false := by decide
 example : Ty.beq c14exA c14exB = true := by
@@ -470,8 +511,8 @@ def c14exSa : Ty := .union [.tvar 0, .known .none]
 def c14exSb : Ty := .typed C.str
 theorem exS_left : subst c14exM2 (unite [c14exSa, c14exSb]) =
     .union [.typed C.int, .typed C.bytes, .known .none, .typed C.str] := by
-  simp [c14exM2, c14exSa, c14exSb, unite, flatten1, dedup, dictMem, Ty.hashEq, subst, substL, mkUnion,
-    TvMap.get, C.str]
+  simp [c14exM2, c14exSa, c14exSb, unite, flatten1, dedup, dictMem, Ty.hashEq, Obj.zeroHashCls, Ty.beq,
+    subst, substL, mkUnion, TvMap.get, C.str]
 example : Ty.beq (subst c14exM2 (unite [c14exSa, c14exSb])) (unite [subst c14exM2 c14exSa, subst c14exM2 c14exSb]) = true :=
   subst_unite_comm_partial c14exM2 c14exSa c14exSb (by decide) (by decide) (by decide) (by decide)
     (by rw [exS_left]; decide)
